@@ -156,7 +156,19 @@ NackGreedy(s, i) ==
              inwin == {j \in (i + 1)..Min2(Len(s), i + 16) : s[j] - base <= 16}
              blp   == SumSet({Pow2(s[j] - base - 1) : j \in inwin})
          IN  << << base, blp >> >> \o NackGreedy(s, i + 1 + Cardinality(inwin))
-NackWords(set) == NackGreedy(SetToSortSeq(set, <), 1)
+NackWordsRec(set) == NackGreedy(SetToSortSeq(set, <), 1)
+\* The same cover as ONE left-to-right pass (TLC evaluates the recursive form in time quadratic in the number of words,
+\* a minute for the 3856 words of a full sequence space; the fold takes a second).  A word is open while elements
+\* fall within 16 of its base; the next element further away closes it and opens the next.  WireTest and MC_Writer
+\* check NackWords = NackWordsRec on their domains.
+NackFoldStep(acc, x) ==
+    IF acc.has /\ x - acc.base <= 16
+    THEN [acc EXCEPT !.blp = @ + Pow2(x - acc.base - 1)]
+    ELSE [has |-> TRUE, base |-> x, blp |-> 0,
+          done |-> IF acc.has THEN Append(acc.done, << acc.base, acc.blp >>) ELSE acc.done]
+NackWords(set) ==
+    LET r == FoldLeft(NackFoldStep, [has |-> FALSE, base |-> 0, blp |-> 0, done |-> <<>>], SetToSortSeq(set, <))
+    IN  IF r.has THEN Append(r.done, << r.base, r.blp >>) ELSE r.done
 MinNackWords(set) == Len(NackWords(set))
 EncNack(set) == LET ws == NackWords(set) IN FlatFixed([i \in 1..Len(ws) |-> BE16(ws[i][1]) \o BE16(ws[i][2])], 4)
 
